@@ -33,6 +33,7 @@ import SF.Proofs.UnfIgnore
 import SF.Proofs.UnfGenericTop
 import SF.Gotype.Menagerie
 import SF.Proofs.UnfConsTop
+import SF.Proofs.UnfStructValTop
 namespace SF.Props.C13
 open SF SF.Unf
 
@@ -202,3 +203,74 @@ example :
      | .error _ => false) = true := by decide +kernel
 
 end SF.PropsTyped.C13
+
+
+/-! ## the typed-assignment clause for STRUCT targets (proofs SF/Proofs/UnfSV*.lean, UnfStructValTop.lean)
+
+Covered: struct targets whose (flattened) fields are of primitive, `interface{}` or struct type,
+`inline` / `squash` fields to any depth (they are just longer offset paths in the compiled field
+table), nested structs, unknown keys with values of any shape (swallowed without a trace), duplicate
+keys (assigned in stream order), numeric conversions.  The hypothesis `FM` says the compiled field
+table agrees entry by entry with the specification's field list (`Spec.specFields`) — checkable by
+evaluation for a concrete type; it is FORCED: for a tag with a leading blank (`" -"`) the code
+compares the untrimmed name with `-` while the specification trims first, and a type with a
+duplicate member name is refused by `SetTarget` (both evaluated in the proof file).  NOT covered
+(safety there: C14 `any_events_into_struct`; values: oracle `assign`): fields of type `[]T`,
+`map[string]T`, `*T`, containers of structs. -/
+
+namespace SF.PropsStruct.C13
+open SF SF.Unf SF.Unf.Spec SF.Unf.SV
+open SF.UnfProofs.StructVal (startCtx Shaped)
+
+/-- C13, STRUCT TARGETS, from a compiled field table (every hypothesis can be checked by evaluation):
+for ANY old value of the target, an idle Unfolder and ONE object whose member values are well-formed
+trees: whenever the specification's member fold makes a claim, the whole event sequence is accepted,
+the run ends in EXACTLY the context it started from but for the target (and cells / key cache), and
+the target holds the specified value for the oracle's comparison: fields mentioned hold the assigned
+(converted) values, fields not mentioned are untouched, unknown members leave no trace -/
+theorem object_into_struct_compiled (f : Nat) (tbl : TypeTable) (S : GoType) (fields : Fields) (sf : SpecFields)
+    (R : Reg) (v0 : GoVal) (c : Ctx) (l : Int) (bt : Nat) (ms : List (Bool × Bytes × UTree)) (ip : Bool) (n : Nat)
+    (want : GoVal) (hFM : FM tbl S fields sf) (hv0 : Shaped tbl S v0) (hidle : c.unfolder.stack = [])
+    (hkc : Symbols.Inv c.keyCache) (hwf : ∀ m ∈ ms, m.2.2.wf = true)
+    (hspec : assignMembers tbl ip n sf v0 (toSMems ms) = some want) :
+    ∃ got cells' kc', run (f + 2) (UTree.obj l bt ms).events (startCtx c tbl R fields v0) =
+        .ok () { c with target := got, env := tbl, reg := R, cells := cells', keyCache := kc' } ∧
+      norm got = norm want ∧ sameVal got want = true ∧ Shaped tbl S got ∧ Symbols.Inv kc' :=
+  SF.UnfProofs.StructVal.object_into_struct_compiled f tbl S fields sf R v0 c l bt ms ip n want hFM hv0 hidle hkc hwf hspec
+
+/-- C13, STRUCT TARGETS, through `SetTarget`: whenever the specification makes a claim
+(`Spec.expected`), `SetTarget` (the type compiles to the field table `fields`) and the whole event
+sequence are accepted, the Unfolder is EXACTLY as before `SetTarget` but for the target, `env` /
+`reg`, cells and key cache, and the target holds the specified value -/
+theorem unfold_object_into_struct (f : Nat) (tbl : TypeTable) (S : GoType) (nm : String)
+    (fs : List (String × String × GoType)) (fields : Fields) (R : Reg) (v0 : GoVal) (c : Ctx) (t : UTree) (want : GoVal)
+    (hS : S.un tbl = .struct nm fs)
+    (hcomp : lookupReflUnfolder tbl typeFuel [] c.reg S = .ok (.struct fields, R))
+    (hFM : FM tbl S fields (specFields tbl (fs.length + 64) fs 0))
+    (hv0 : Shaped tbl S v0) (hidle : c.unfolder.stack = []) (hkc : Symbols.Inv c.keyCache) (hwf : t.wf = true)
+    (hexp : expected tbl S v0 t.toS = some want) :
+    ∃ c₀ got cells' kc', setTarget tbl S v0 c = .ok c₀ ∧
+      run (f + 2) t.events c₀ =
+        .ok () { c with target := got, env := tbl, reg := R, cells := cells', keyCache := kc' } ∧
+      norm got = norm want ∧ sameVal got want = true ∧ Shaped tbl S got :=
+  SF.UnfProofs.StructVal.unfold_object_into_struct f tbl S nm fs fields R v0 c t want hS hcomp hFM hv0 hidle hkc hwf hexp
+
+/-- non-vacuity: `struct { A int; In ",inline"{X int; Y string "why"}; F float64 "f"; I interface{};
+U MyU8; hidden int }` holding old values, a document with a duplicate inlined key, an unknown nested
+member, int8 → float64 and uint16 → MyU8 conversions, a generic array, a by-reference key: the
+hypotheses hold (`demoFM`), and the mirror run ends idle with the target as specified -/
+example : FM SF.UnfProofs.StructVal.noTbl SF.UnfProofs.StructVal.tDemo SF.UnfProofs.StructVal.demoFields
+    SF.UnfProofs.StructVal.demoSF ∧
+    (match run typeFuel (UTree.obj 7 0 SF.UnfProofs.StructVal.demoDoc).events
+        (startCtx newUnfolder SF.UnfProofs.StructVal.noTbl [] SF.UnfProofs.StructVal.demoFields
+          SF.UnfProofs.StructVal.demoOld) with
+     | .ok _ c₁ =>
+       c₁.depths == [0, 0, 0, 0, 0, 0] &&
+       (match c₁.target with
+        | .struct [.int .int 7, .struct [.int .int 4, .str [0x74]], .f64 _,
+                   .ifc (.slice .ifc [.ifc (.int .i8 1), .ifc (.str [0x73])] []), .int .u8 200, .int .int 3] => true
+        | _ => false)
+     | _ => false) = true :=
+  ⟨SF.UnfProofs.StructVal.demoFM, by decide +kernel⟩
+
+end SF.PropsStruct.C13
